@@ -83,6 +83,10 @@ type c11Sess struct {
 	alive     bool
 	inFlight  int
 	idleSince time.Time
+	// closing: a DELETE or a server-side close has started but cannot complete while a POST is in
+	// flight.  Until one of them completes the deletion is not acknowledged, so requests on the
+	// session are not constrained; an acknowledged DELETE (204) ends that at once.
+	closing bool
 }
 
 func c11Run(t *testing.T, ops []c11Op, hist []int) (out verifx.SearchResult) {
@@ -122,6 +126,7 @@ func c11InBubble(ops []c11Op, hist []int) verifx.SearchResult {
 		sess int
 	}
 	var pending []*pendingReq
+	var closers []*pendingReq // DELETEs (w != nil) and server-side closes (w == nil) waiting for in-flight POSTs
 	var cancels []context.CancelFunc
 	defer func() {
 		for _, c := range cancels {
@@ -205,7 +210,26 @@ func c11InBubble(ops []c11Op, hist []int) verifx.SearchResult {
 			}
 			return okStatus
 		}
+		if m != nil && m.closing && (op.kind == "call" || op.kind == "get" || op.kind == "gated") {
+			return verifx.SearchResult{Skip: true} // unconstrained until the deletion is acknowledged
+		}
 		runsBefore := toolRuns
+		// settleClosers: once the in-flight POSTs are done every pending DELETE / close completes
+		settleClosers := func() *verifx.SearchResult {
+			for _, c := range closers {
+				if !finished(c.done) {
+					r := bad("close-never-completes", "%s: a DELETE / server-side close of session s%d is still blocked after the in-flight POSTs completed", where, c.sess+1)
+					return &r
+				}
+				if c.w != nil && c.w.Code != 204 && c.w.Code != 404 {
+					r := bad(fmt.Sprintf("wrong-status DELETE got %d want 204", c.w.Code), "%s: a DELETE that waited for in-flight POSTs was answered %d", where, c.w.Code)
+					return &r
+				}
+				sess[c.sess].alive, sess[c.sess].closing = false, false
+			}
+			closers = nil
+			return nil
+		}
 		switch op.kind {
 		case "init":
 			if len(sess) == 2 {
@@ -270,6 +294,10 @@ func c11InBubble(ops []c11Op, hist []int) verifx.SearchResult {
 					return bad("in-flight-post-never-completes", "%s: an in-flight POST did not complete after its handler returned", where)
 				}
 				ps := sess[p.sess]
+				if ps.closing {
+					ps.inFlight--
+					continue
+				}
 				if ps.alive && p.w.Code != 200 {
 					return bad("in-flight-post-failed", "%s: in-flight POST on live session answered %d", where, p.w.Code)
 				}
@@ -282,6 +310,9 @@ func c11InBubble(ops []c11Op, hist []int) verifx.SearchResult {
 				}
 			}
 			pending = nil
+			if r := settleClosers(); r != nil {
+				return *r
+			}
 			obs = "release"
 		case "get":
 			ctx, cancel := context.WithCancel(context.Background())
@@ -304,24 +335,45 @@ func c11InBubble(ops []c11Op, hist []int) verifx.SearchResult {
 			synctest.Wait()
 			obs = fmt.Sprintf("get-%d", got)
 		case "delete", "close":
-			if m != nil && m.alive && m.inFlight > 0 {
-				return verifx.SearchResult{Skip: true} // Close waits for in-flight handlers: covered by the release ordering instead
-			}
+			blocked := m != nil && m.alive && m.inFlight > 0 // closing waits for in-flight handlers
 			if op.kind == "close" {
 				if m == nil || !m.alive {
 					return verifx.SearchResult{Skip: true}
 				}
+				done := make(chan struct{})
 				for ss := range s.Sessions() {
 					if ss.ID() == m.id {
-						ss.Close()
+						go func() {
+							ss.Close()
+							close(done)
+						}()
 					}
 				}
-				m.alive = false
+				synctest.Wait()
+				if blocked && !finished(done) {
+					m.closing = true
+					closers = append(closers, &pendingReq{done: done, sess: op.sess})
+					obs = "server-close-waits"
+					break
+				}
+				if !finished(done) {
+					return bad("close-hangs", "%s: ServerSession.Close did not return although nothing is in flight", where)
+				}
+				m.alive, m.closing = false, false
 				obs = "server-close"
 				break
 			}
 			w, done := do("DELETE", sidOf(op.sess), op.user, "", context.Background())
 			want := expectStatus(204)
+			if blocked && want == 204 && !finished(done) {
+				m.closing = true
+				closers = append(closers, &pendingReq{w: w, done: done, sess: op.sess})
+				obs = "delete-waits"
+				break
+			}
+			if m != nil && m.closing && want == 204 && finished(done) && w.Code == 404 {
+				want = 404 // another closer is ahead: refusing is as good as acknowledging
+			}
 			if !finished(done) {
 				return bad("request-hangs", "%s: the DELETE did not complete", where)
 			}
@@ -329,7 +381,8 @@ func c11InBubble(ops []c11Op, hist []int) verifx.SearchResult {
 				return bad(fmt.Sprintf("wrong-status DELETE got %d want %d", w.Code, want), "%s: status %d, want %d (session %+v)", where, w.Code, want, m)
 			}
 			if want == 204 {
-				m.alive = false
+				// acknowledged: from here on the id must be dead, whatever else is still going on
+				m.alive, m.closing = false, false
 			}
 			obs = fmt.Sprintf("delete-%d", w.Code)
 		case "advance":
@@ -351,6 +404,8 @@ func c11InBubble(ops []c11Op, hist []int) verifx.SearchResult {
 		for i, ms := range sess {
 			has := slices.Contains(liveIDs, ms.id)
 			switch {
+			case ms.closing:
+				// either is fine until a closer completes
 			case ms.alive && !has:
 				why := "closed"
 				if ms.inFlight > 0 {
@@ -366,18 +421,21 @@ func c11InBubble(ops []c11Op, hist []int) verifx.SearchResult {
 		h.mu.Lock()
 		nmap := len(h.sessions)
 		h.mu.Unlock()
-		nalive := 0
+		nalive, nclosing := 0, 0
 		for _, ms := range sess {
-			if ms.alive {
+			switch {
+			case ms.closing:
+				nclosing++
+			case ms.alive:
 				nalive++
 			}
 		}
-		if nmap != nalive {
-			return bad("handler-session-table", "after %s: the handler tracks %d sessions, %d are alive", where, nmap, nalive)
+		if nmap < nalive || nmap > nalive+nclosing {
+			return bad("handler-session-table", "after %s: the handler tracks %d sessions, %d are alive (%d closing)", where, nmap, nalive, nclosing)
 		}
 	}
 	// canonical key (computed before the destructive final probe)
-	key := c11Key(ops, hist, sess, len(pending))
+	key := c11Key(ops, hist, sess, len(pending)+100*len(closers))
 	// Final probe (each history is replayed on a fresh handler, so it may disturb the state):
 	// in-flight POSTs complete with their responses, and every session answers a ping as its
 	// owner with 200 if the reference table says alive, 404 if dead.
@@ -390,11 +448,21 @@ func c11InBubble(ops []c11Op, hist []int) verifx.SearchResult {
 			if !finished(p.done) {
 				return bad("in-flight-post-never-completes", "at the end of the history an in-flight POST does not complete after its handler returned")
 			}
-			if ps.alive && (p.w.Code != 200 || !strings.Contains(p.w.Body.String(), `"result"`)) {
+			if ps.alive && !ps.closing && (p.w.Code != 200 || !strings.Contains(p.w.Body.String(), `"result"`)) {
 				return bad("in-flight-post-lost-response", "an in-flight POST on a session that should be alive completed with %d %q", p.w.Code, p.w.Body.String())
 			}
 			ps.inFlight--
 		}
+	}
+	synctest.Wait()
+	for _, c := range closers {
+		if !finished(c.done) {
+			return bad("close-never-completes", "at the end of the history a DELETE / server-side close of session s%d is still blocked after the in-flight POSTs completed", c.sess+1)
+		}
+		if c.w != nil && c.w.Code != 204 && c.w.Code != 404 {
+			return bad(fmt.Sprintf("wrong-status DELETE got %d want 204", c.w.Code), "a DELETE that waited for in-flight POSTs was answered %d", c.w.Code)
+		}
+		sess[c.sess].alive, sess[c.sess].closing = false, false
 	}
 	for i, ms := range sess {
 		w, done := do("POST", ms.id, ms.owner, `{"jsonrpc":"2.0","id":"probe","method":"ping"}`, context.Background())
@@ -416,7 +484,7 @@ func c11Key(ops []c11Op, hist []int, sess []*c11Sess, npending int) string {
 		if ms.alive && ms.inFlight == 0 {
 			idle = time.Since(ms.idleSince)
 		}
-		fmt.Fprintf(&b, "[%s alive=%v inflight=%d idle=%v]", ms.owner, ms.alive, ms.inFlight, idle)
+		fmt.Fprintf(&b, "[%s alive=%v closing=%v inflight=%d idle=%v]", ms.owner, ms.alive, ms.closing, ms.inFlight, idle)
 	}
 	fmt.Fprintf(&b, " pending=%d", npending)
 	// The reference table cannot see implementation state such as whether the idle timer is armed.
